@@ -109,6 +109,17 @@ def create_marker_cache_from_specified_markers(
     those markers will just be dropped and a warning issued
     """
 
+    # markers that are unknown to the reference dataset; recorded here,
+    # before validate_marker_lookup has a chance to drop them while
+    # patching a parent's list with the markers of its ancestors
+    reference_gene_set = set(reference_gene_names)
+    missing_reference_markers = set()
+    for parent_node in marker_lookup:
+        if parent_node in ('metadata', 'log'):
+            continue
+        missing_reference_markers = missing_reference_markers.union(
+            set(marker_lookup[parent_node])-reference_gene_set)
+
     # check that all non-trivial parent nodes will have more than
     # zero marker genes assigned to them
     if taxonomy_tree is not None:
@@ -140,7 +151,6 @@ def create_marker_cache_from_specified_markers(
     reference_gene_set = set(reference_gene_names)
     final_marker_lookup = dict()
     missing_query_markers = set()
-    missing_reference_markers = set()
     for parent_node in marker_lookup:
         if parent_node == 'metadata':
             continue
